@@ -329,6 +329,12 @@ func (c *Ctx) dischargeSites(rule string, sites []panicSite, table reviewed, aut
 			c.R.OK(rule, k, pos, "reviewed: "+why)
 			continue
 		}
+		// the same construct in another function of the same package: code moved by an extract-/inline-helper
+		// refactoring keeps its reviewed reason (the reason is about the expression and its guard, which moved with it)
+		if why, from, ok := movedReviewed(table, s); ok {
+			c.R.OK(rule, k, pos, "reviewed (construct moved within the package, was in "+from+"): "+why)
+			continue
+		}
 		c.R.Bad(rule, k, pos, panicKindText(s.Kind)+" in request-reachable code without a guard the analysis can find and without a reviewed reason: "+s.Expr, nil, nil)
 	}
 }
@@ -352,3 +358,36 @@ func panicKindText(k string) string {
 }
 
 var _ = walk.IsFieldLoad
+
+// movedReviewed finds a reviewed entry of the same kind and expression whose function lies in the site's package
+// and no longer contains such a site.
+func movedReviewed(table reviewed, s panicSite) (why, from string, ok bool) {
+	pk := prog.Short(prog.FnPkg(s.Fn).Path())
+	fnPkg := func(name string) string {
+		name = strings.TrimPrefix(strings.TrimPrefix(name, "("), "*")
+		if i := strings.LastIndex(name, "/"); i >= 0 {
+			if j := strings.Index(name[i:], "."); j >= 0 {
+				return name[:i+j]
+			}
+		}
+		if j := strings.Index(name, "."); j >= 0 {
+			return name[:j]
+		}
+		return name
+	}
+	var keys []string
+	for k := range table {
+		keys = append(keys, k)
+	}
+	sort.Strings(keys)
+	for _, k := range keys {
+		parts := strings.SplitN(k, "|", 3)
+		if len(parts) != 3 || parts[0] != s.Kind || parts[2] != s.Expr {
+			continue
+		}
+		if fnPkg(parts[1]) == pk {
+			return table[k], parts[1], true
+		}
+	}
+	return "", "", false
+}
